@@ -32,8 +32,8 @@ QuickVersions == {3, 6, 9, 10, 11}
 AllVersions == 3..11
 
 Parts == {"member", "send", "notif"}
-VARIABLES phase, part, v, str, pl, tm, al
-vars == <<phase, part, v, str, pl, tm, al>>
+VARIABLES phase, part, v, str, pl, tm, al, red
+vars == <<phase, part, v, str, pl, tm, al, red>>
 
 \* levels relative to the actor's level al; al is placed at and just below the two default values (50 and 0) so
 \* that an absent field is distinguishable from every wrong default
@@ -47,6 +47,9 @@ MapOf(k, r, ss) == IF r = "absent" THEN <<>> ELSE One(k, Val(r, ss))
 
 Init == /\ phase = 0 /\ part \in Parts /\ v \in VersionSet /\ str \in BOOLEAN
         /\ pl = EmptyPL /\ tm = "join" /\ al \in ActorLevels
+        \* red: the power levels event has been redacted; helpers and rules then read its redacted content (which keeps
+        \* `invite` from room version 11 on and never keeps `notifications`)
+        /\ red \in BOOLEAN /\ (red => part \in {"member", "notif"})
 
 \* the actor's level 50 comes from a users entry or from users_default; the target's from an entry or the default
 Actor(mode, tr) ==
@@ -55,7 +58,7 @@ Actor(mode, tr) ==
   ELSE [users |-> MapOf(UB.name, tr, str), ud |-> Val("eq", str)]
 
 Next ==
-  /\ phase = 0 /\ phase' = 1 /\ UNCHANGED <<part, v, str, al>>
+  /\ phase = 0 /\ phase' = 1 /\ UNCHANGED <<part, v, str, al, red>>
   /\ \/ /\ part = "member"
         /\ \E mode \in {"entry", "default"}, tr \in Rel, b \in Rel, k \in Rel, i \in Rel, m \in {"join", "invite", "leave", "ban", "absent"} :
              LET a == Actor(mode, tr) IN
@@ -76,7 +79,9 @@ Next ==
              /\ tm' = "join"
 
 R == RV(v)
-St == StateOf({CreateEv, PLEv(pl), MemberBy(UA, UA, "join")} \cup (IF tm = "absent" THEN {} ELSE {MemberBy(UB, UB, tm)}))
+RedactPL(p) == [p EXCEPT !.invite = IF R.keep_pl_invite THEN @ ELSE AbsentV, !.notifications = <<>>]
+EPL == IF red THEN RedactPL(pl) ELSE pl
+St == StateOf({CreateEv, PLEv(EPL), MemberBy(UA, UA, "join")} \cup (IF tm = "absent" THEN {} ELSE {MemberBy(UB, UB, tm)}))
 Allowed(ev) == Auth(St, ev, R)[1]
 MemberEvent(m) == [MemberBy(UA, UB, m) EXCEPT !.id = "$e"]
 MsgEvent == Ev("$e", "m.room.message", UA, FALSE, "", C0)
@@ -88,15 +93,15 @@ Iff(h, verdict) == (h /\ verdict = "allow") \/ (~h /\ verdict = "reject")
 \* ---- the theorem of C20, on the model
 Equiv ==
   (phase = 1 /\ Specified) =>
-    /\ Iff(HCanBanUser(pl, UA.name, UB.name), Allowed(MemberEvent("ban")))
-    /\ (tm \in {"join", "invite"} => Iff(HCanKickUser(pl, UA.name, UB.name), Allowed(MemberEvent("leave"))))
-    /\ (tm = "ban" => Iff(HCanUnbanUser(pl, UA.name, UB.name), Allowed(MemberEvent("leave"))))
-    /\ (tm \in {"leave", "absent"} => Iff(HCanInvite(pl, UA.name), Allowed(MemberEvent("invite"))))
-    /\ Iff(HCanSendMessage(pl, UA.name, "m.room.message"), Allowed(MsgEvent))
-    /\ Iff(HCanSendState(pl, UA.name, "m.room.topic"), Allowed(TopicEvent))
-    /\ (HCanNotifyRoom(pl, UA.name) <=> NotifPermission(pl, UA.name))
-    /\ HForUser(pl, UA.name) = UserLevel(St, UA, R)
-    /\ HForUser(pl, UB.name) = UserLevel(St, UB, R)
+    /\ Iff(HCanBanUser(EPL, UA.name, UB.name), Allowed(MemberEvent("ban")))
+    /\ (tm \in {"join", "invite"} => Iff(HCanKickUser(EPL, UA.name, UB.name), Allowed(MemberEvent("leave"))))
+    /\ (tm = "ban" => Iff(HCanUnbanUser(EPL, UA.name, UB.name), Allowed(MemberEvent("leave"))))
+    /\ (tm \in {"leave", "absent"} => Iff(HCanInvite(EPL, UA.name), Allowed(MemberEvent("invite"))))
+    /\ Iff(HCanSendMessage(EPL, UA.name, "m.room.message"), Allowed(MsgEvent))
+    /\ Iff(HCanSendState(EPL, UA.name, "m.room.topic"), Allowed(TopicEvent))
+    /\ (HCanNotifyRoom(EPL, UA.name) <=> NotifPermission(EPL, UA.name))
+    /\ HForUser(EPL, UA.name) = UserLevel(St, UA, R)
+    /\ HForUser(EPL, UB.name) = UserLevel(St, UB, R)
 
 CV(t) == CASE t.k = "int" -> t.n [] t.k = "str" -> [s |-> t.n] [] OTHER -> [bad |-> TRUE]
 CMap(m) == [x \in DOMAIN m |-> CV(m[x])]
@@ -104,11 +109,11 @@ CPL(p) == [f \in {g \in ScalarFields : p[g].k # "absent"} |-> CV(p[f])]
           @@ [users |-> CMap(p.users), events |-> CMap(p.events), notifications |-> CMap(p.notifications), userkeysvalid |-> TRUE]
 
 Emit == phase = 1 =>
-  PrintT(<<"CASE", ToJson([ v |-> v, part |-> part, str |-> str, tm |-> tm, al |-> al, pl |-> CPL(pl), spec |-> Specified,
-     ban |-> HCanBanUser(pl, UA.name, UB.name), kick |-> HCanKickUser(pl, UA.name, UB.name),
-     unban |-> HCanUnbanUser(pl, UA.name, UB.name), invite |-> HCanInvite(pl, UA.name),
-     msg |-> HCanSendMessage(pl, UA.name, "m.room.message"), topic |-> HCanSendState(pl, UA.name, "m.room.topic"),
-     notif |-> HCanNotifyRoom(pl, UA.name), la |-> HForUser(pl, UA.name), lb |-> HForUser(pl, UB.name),
+  PrintT(<<"CASE", ToJson([ v |-> v, part |-> part, str |-> str, tm |-> tm, al |-> al, pl |-> CPL(pl), red |-> red, spec |-> Specified,
+     ban |-> HCanBanUser(EPL, UA.name, UB.name), kick |-> HCanKickUser(EPL, UA.name, UB.name),
+     unban |-> HCanUnbanUser(EPL, UA.name, UB.name), invite |-> HCanInvite(EPL, UA.name),
+     msg |-> HCanSendMessage(EPL, UA.name, "m.room.message"), topic |-> HCanSendState(EPL, UA.name, "m.room.topic"),
+     notif |-> HCanNotifyRoom(EPL, UA.name), la |-> HForUser(EPL, UA.name), lb |-> HForUser(EPL, UB.name),
      a_ban |-> Allowed(MemberEvent("ban")), a_leave |-> Allowed(MemberEvent("leave")),
      a_invite |-> Allowed(MemberEvent("invite")), a_msg |-> Allowed(MsgEvent), a_topic |-> Allowed(TopicEvent) ])>>)
 =============================================================================
